@@ -9,6 +9,7 @@ import (
 	"path/filepath"
 	"reflect"
 	"strings"
+	"sync/atomic"
 	"unicode"
 )
 
@@ -1945,6 +1946,10 @@ func (interp *Interpreter) cfg(root *node, sc *scope, importPath, pkgName string
 				n.start.gen = branch
 			}
 			logicalConst(n)
+			if !n.rval.IsValid() {
+				// A false first operand gives the result, without the second one.
+				setFNext(n.child[0], shortCircuitNode(n))
+			}
 
 		case lorExpr:
 			if isBlank(n.child[0]) || isBlank(n.child[1]) {
@@ -1961,6 +1966,10 @@ func (interp *Interpreter) cfg(root *node, sc *scope, importPath, pkgName string
 				n.start.gen = branch
 			}
 			logicalConst(n)
+			if !n.rval.IsValid() {
+				// A true first operand gives the result, without the second one.
+				n.child[0].tnext = shortCircuitNode(n)
+			}
 
 		case parenExpr:
 			wireChild(n)
@@ -2856,6 +2865,25 @@ func getVarDependencies(nod *node, sc *scope, refs map[*node]*globalRefs) (deps 
 
 // setFnext sets the cond fnext field to next, propagates it for parenthesis blocks
 // and sets the action to branch.
+// shortCircuitNode returns the node executed when the first operand of the
+// logical operation n gives its result: it is not part of the AST, and only
+// reached through the successors of the first operand.
+func shortCircuitNode(n *node) *node {
+	return &node{
+		anc:    n,
+		interp: n.interp,
+		index:  atomic.AddInt64(&n.interp.nindex, 1),
+		pos:    n.pos,
+		kind:   n.kind,
+		action: aNop,
+		gen:    shortCircuit,
+		scope:  n.scope,
+		// The closure of the node is generated after the one of n, whose
+		// successors it jumps to.
+		tnext: n,
+	}
+}
+
 func setFNext(cond, next *node) {
 	if cond.action == aNop {
 		cond.action = aBranch
